@@ -17,7 +17,7 @@ import numpy as np
 from . import common as C
 from . import topo as T
 from . import report as R
-from mininec.mininec import Excitation, Angle
+from mininec.mininec import Excitation, Angle, Impedance_Load
 
 PID = 'C07'
 INVS = ['WeightsAgree', 'GroundWeight', 'OneRealHalf', 'FreeSpaceUnit']
@@ -50,8 +50,10 @@ def records(chk, tier, invs, runs=RUNS):
             raise C.Machinery('no Circuit records (%s)' % cfg)
 
 
-def build_with_sources(rec, ground, srcs, volts):
+def build_with_sources(rec, ground, srcs, volts, load=None):
     m = T.build(rec['input'], ground, T.Concretiser(), f=F)
+    if load is not None:
+        m.register_load(Impedance_Load(load[1]), load[0])
     tags = [o['tag'] for o in rec['objs']]
     rel = {q: (k, tags[o]) for o, lst in enumerate(rec['opulses']) for k, q in enumerate(lst)}
     for (q, form), v in zip(srcs, volts):
@@ -84,7 +86,10 @@ def check_record(args):
         srcs = [(q, rnd.choice(['abs', 'rel'])) for q in qs]
         volts = [rnd.choice(VOLTS) for _ in qs]
         out['nsrc'] = k
-        m = build_with_sources(rec, ground, srcs, volts)
+        # a passive lumped load on some pulse in half of the cases: the antenna stays a linear network
+        load = (rnd.randrange(N), rnd.choice([50 + 20j, 5 - 300j, 1000 + 0j])) if rnd.random() < 0.5 else None
+        out['load'] = load is not None
+        m = build_with_sources(rec, ground, srcs, volts, load)
         # (1) right-hand side, exactly
         m.compute_rhs()
         exp = np.zeros(N, dtype=complex)
@@ -109,7 +114,7 @@ def check_record(args):
         scale = np.max(np.abs(I))
         tol = 1e-12 * cond + 1e-10
         a = rnd.choice(ALPHAS)
-        m2 = build_with_sources(rec, ground, srcs, [a * v for v in volts])
+        m2 = build_with_sources(rec, ground, srcs, [a * v for v in volts], load)
         m2.compute()
         if np.max(np.abs(m2.current - a * I)) > tol * abs(a) * scale:
             out['mism'].append(dict(what='scaling-currents', alpha=str(a)))
@@ -127,11 +132,35 @@ def check_record(args):
                     np.max(np.abs(g1[sel] - g2[sel]), initial=0) > 1e-6:
                 out['mism'].append(dict(what='scaling-dbi', alpha=str(a),
                                         diff=float(np.max(np.abs(g1[sel] - g2[sel]), initial=0))))
+            # ... also when a power level is requested for the V/m table (it rescales that table only)
+            pw = rnd.choice([100.0, 0.05])
+            m.compute_far_field(zen, azi, pwr=pw)
+            m2.compute_far_field(zen, azi, pwr=pw)
+            h1, h2 = np.array(m.far_field.gain), np.array(m2.far_field.gain)
+            for nm, x, y in (('scaled', h1, h2), ('with-and-without-power', g1, h1)):
+                sel = (x > -200) & (y > -200)
+                if x.shape != y.shape or np.max(np.abs(x[sel] - y[sel]), initial=0) > 1e-6:
+                    out['mism'].append(dict(what='dbi-depends-on-requested-power', which=nm,
+                                            diff=float(np.max(np.abs(x[sel] - y[sel]), initial=0))))
+            e1, e2 = np.array(m.far_field.e_theta), np.array(m2.far_field.e_theta)
+            if np.max(np.abs(np.abs(e1) - np.abs(e2))) > 1e-6 * np.max(np.abs(e1)):
+                out['mism'].append(dict(what='field-at-requested-power-depends-on-voltage-scale'))
+        # the same OBJECT solved again with scaled voltages (as a user changing the excitation does)
+        for s, v in zip(m.sources, volts):
+            s.voltage = complex(a * v)
+        m.compute()
+        if np.max(np.abs(m.current - a * I)) > tol * abs(a) * scale:
+            out['mism'].append(dict(what='scaling-currents-same-object', alpha=str(a), load=load is not None))
+        for s, v in zip(m.sources, volts):
+            s.voltage = complex(v)
+        m.compute()
+        if np.max(np.abs(m.current - I)) > tol * scale:
+            out['mism'].append(dict(what='recompute-same-object', load=load is not None))
         # superposition: each source alone, the others held at 0 V
         tot = np.zeros(N, dtype=complex)
         for j in range(len(srcs)):
             vj = [v if i == j else 0j for i, v in enumerate(volts)]
-            mj = build_with_sources(rec, ground, srcs, vj)
+            mj = build_with_sources(rec, ground, srcs, vj, load)
             mj.compute()
             tot += mj.current
         if np.max(np.abs(tot - I)) > tol * scale:
